@@ -35,10 +35,13 @@ def md_cell(v):
 
 def md_ok(form) -> bool:
     """can Markdown carry this workbook? (no newlines/tabs-only distinctions, no blank rows, no cell ending in a backslash)"""
+    import re as _re
     for _, head, rows in sheets_of(form):
         for r in rows:
             if not r:
                 return False
+            if r and all(isinstance(v, str) and _re.fullmatch(r":?-{3,}:?", v.strip()) for v in r.values()):
+                return False    # a row whose cells are all '---' *is* a Markdown separator row
             for v in r.values():
                 if isinstance(v, str) and ("\n" in v or "\r" in v or v.endswith("\\") or "\\|" in v or v != v.strip() or not v.strip()):
                     return False
